@@ -242,6 +242,8 @@ def check_cfg_taint(ctx, res):
             # std-only bodies: must be std::error::Error impls (no arithmetic API)
             if a.trait in ("core::error::Error", "std::error::Error"):
                 res.ok("R6c-std-only-body", p, {"kind": "Error impl"}, nontrivial=False)
+            elif not a.exported():
+                res.ok("R6c-std-only-body", p, {"kind": "private helper: its calls are configuration-only statements of its callers"}, nontrivial=False)
             else:
                 res.fail(Finding("R6c-std-only-body", p, "function exists only with the std feature and is not an Error impl", a))
             continue
@@ -251,33 +253,64 @@ def check_cfg_taint(ctx, res):
         if p not in ps:
             res.fail(Finding("R6c-nostd-only-body", p, "function exists only without the std feature", pn[p]))
     res.count("R6c configuration-sensitive bodies (std vs no_std)", len(sensitive))
-    for p, a, b in sensitive:
-        la, lb = line_tokens(a), line_tokens(b)
-        for (body, mine, theirs, cfg) in ((a, la, lb, "std"), (b, lb, la, "no_std")):
-            # sources: tokens of this version not matched on the same line in the other version
-            sources = []
-            for line, toks in mine.items():
-                other = [t for (_, _, t) in theirs.get(line, [])]
-                for (x, si, tok) in toks:
-                    if tok in other:
-                        other.remove(tok)
-                    else:
-                        sources.append((x, si, tok, line))
-            bad = taint_reaches_result(body, sources)
-            key = "%s|%s" % (p, cfg)
-            if bad:
-                res.fail(
-                    Finding(
-                        "R6c-cfg-value-reaches-result",
-                        key,
-                        "a value computed by %s-only code (line %s: %s) can flow into the result of this function (%s); "
-                        "configuration-dependent values may only feed capacity estimates or a Newton initial guess" % (cfg, bad[0], bad[1][:90], bad[2]),
-                        body,
-                        bad[0],
+    tainted_helpers = {}  # path -> why: private functions whose *return value* is configuration-dependent
+    for p, a in ps.items():
+        if p not in pn and not (a.trait in ("core::error::Error", "std::error::Error")) and not a.exported():
+            tainted_helpers[p] = "exists only with std"
+    work = [(p, a, b, None) for (p, a, b) in sensitive]
+    done_callers = set()
+    rounds = 0
+    while work and rounds < 6:
+        rounds += 1
+        nxt = []
+        for p, a, b, via in work:
+            la, lb = line_tokens(a), line_tokens(b)
+            for (body, mine, theirs, cfg) in ((a, la, lb, "std"), (b, lb, la, "no_std")):
+                # sources: tokens of this version not matched on the same line in the other version
+                sources = []
+                for line, toks in mine.items():
+                    other = [t for (_, _, t) in theirs.get(line, [])]
+                    for (x, si, tok) in toks:
+                        if tok in other:
+                            other.remove(tok)
+                        else:
+                            sources.append((x, si, tok, line))
+                # calls of configuration-dependent private helpers are sources as well
+                for x, t in body.calls():
+                    if callee(t) in tainted_helpers and x in body.live_blocks():
+                        sources.append((x, "T", "call of %s (%s)" % (callee(t).split("::")[-1], tainted_helpers[callee(t)]), t["span"]["line"]))
+                bad = taint_reaches_result(body, sources)
+                key = "%s|%s" % (p, cfg)
+                if bad and bad[2] == "return value" and not body.exported() and body.kind != "Closure":
+                    # a private helper may return a configuration-dependent value: its callers are judged instead
+                    if p not in tainted_helpers:
+                        tainted_helpers[p] = "returns a %s-dependent value" % cfg
+                    res.ok("R6c-cfg-confined", key, {"private helper": "returns a configuration-dependent value; judged at its call sites"}, nontrivial=False)
+                elif bad:
+                    res.fail(
+                        Finding(
+                            "R6c-cfg-value-reaches-result",
+                            key,
+                            "a value computed by %s-only code (line %s: %s) can flow into the result of this function (%s); "
+                            "configuration-dependent values may only feed capacity estimates or a Newton initial guess" % (cfg, bad[0], bad[1][:90], bad[2]),
+                            body,
+                            bad[0],
+                        )
                     )
-                )
-            else:
-                res.ok("R6c-cfg-confined", key, {"cfg_only_statements": len(sources), "sinks": "with_capacity / fixpoint guess only"})
+                else:
+                    res.ok("R6c-cfg-confined", key, {"cfg_only_statements": len(sources), "sinks": "with_capacity / fixpoint guess only"})
+        # callers of tainted helpers that were not analysed yet
+        for p2, a2 in ps.items():
+            if p2 in done_callers or p2 in tainted_helpers:
+                continue
+            b2 = pn.get(p2)
+            if any(callee(t) in tainted_helpers for x, t in a2.calls()) or (b2 is not None and any(callee(t) in tainted_helpers for x, t in b2.calls())):
+                done_callers.add(p2)
+                if not any(p2 == q for q, _, _ in sensitive) or rounds > 1:
+                    nxt.append((p2, a2, b2 if b2 is not None else a2, "caller"))
+                elif rounds == 1:
+                    nxt.append((p2, a2, b2 if b2 is not None else a2, "caller"))
+        work = nxt
     if len(sensitive) > 0:
         res.assume("Newton iteration (fixpoint) converges to the same floor root from any initial guess >= the root")
         res.assume("f64::powi / trunc and their FloatCore counterparts compute identical values for the arguments used")
